@@ -21,11 +21,11 @@ func init() {
 			"(R4) the pool's raw base pointer is refreshed whenever the buffer may be reallocated (C01/R6); (R5) dump and load copy, and restore every field of, the pool (C17/R3). Not decided: the implicit free list for all recycle orders, count arithmetic.",
 		TrustedBase: []string{"go/types, go/cfg", "roles pool-get / pool-recycle / alive-test derived from field effects"},
 		Rules: []Rule{
-			{ID: "C02/R1", Run: c02r1, Min: 4},
-			{ID: "C02/R2", Run: c02r2, Min: 2},
-			{ID: "C02/R3", Run: c02r3, Min: 2},
-			{ID: "C02/R4", Run: c01r6, Min: 5},
-			{ID: "C02/R5", Run: c17r3, Min: 8},
+			{ID: "C02/R1", Run: c02r1, Min: 1},
+			{ID: "C02/R2", Run: c02r2, Min: 1},
+			{ID: "C02/R3", Run: c02r3, Min: 1},
+			{ID: "C02/R4", Run: c01r6, Min: 1},
+			{ID: "C02/R5", Run: c17r3, Min: 1},
 		},
 	})
 }
